@@ -189,6 +189,24 @@ def run_pair(ctx, ast, layout, layout2, relabel, smiles, state, label=''):
                          % (smiles, sorted(got2r)[:4], sorted(want2)[:4], text))
         except Exception as e:
             ctx.fail('renumbered-molecule-raises:%s' % type(e).__name__, '%s: %s\nfragment: %s molecule %s' % (type(e).__name__, str(e)[:200], text, smiles))
+    # the molecule given with only SOME of its hydrogens as atoms (the hydrogens of one atom explicit, the rest implicit): the
+    # pattern is matched against the molecule with all its hydrogens, whatever form it came in
+    if state == 'as-read' and mm.n <= 40:
+        base = Chem.MolFromSmiles(smiles)
+        withH = [a.GetIdx() for a in base.GetAtoms() if a.GetTotalNumHs() > 0]
+        if withH and base.GetNumAtoms() >= 2:
+            mp = Chem.AddHs(base, onlyOnAtoms=[withH[sum(map(ord, text)) % len(withH)]])
+            if mp.GetNumAtoms() < Chem.AddHs(base).GetNumAtoms():
+                try:
+                    want3 = ringref.matches(ringref.MolModel(Chem.AddHs(mp)), ref_ast)
+                    got3 = set(tuple(t) for t in q.GetQueryMatches(mp))
+                    ctx.count()
+                    ctx.event('molecule-with-some-hydrogens-explicit')
+                    if got3 != want3:
+                        ctx.fail('partly-explicit-hydrogens', 'molecule %s given with the hydrogens of one atom explicit (%s): returned %s, denoted %s\nfragment: %s'
+                                 % (smiles, Chem.MolToSmiles(mp), sorted(got3)[:4], sorted(want3)[:4], text))
+                except Exception as e:
+                    ctx.fail('partly-explicit-hydrogens-raises:%s' % type(e).__name__, '%s: %s\nfragment: %s molecule %s' % (type(e).__name__, str(e)[:200], text, smiles))
     # layout / label names do not matter
     ast2 = dict(ast, atoms=[dict(a, label=l) for a, l in zip(ast['atoms'], relabel)], name='other_name')
     text2 = ringast.render(ast2, layout2)
